@@ -9,7 +9,8 @@ Model: `RtenVerif/Model/ControlFlow.lean` (`evalG` naive semantics, `runPlan` op
 FULL STATEMENT (for every well-formed program — globally unique names, operators in a valid order —
 every fuel, every owned/borrowed split of the arguments):
     `runPlan S fuel g (flag args) [] = evalG S true fuel [] g args`.
-* It is FALSE as stated: `c24_loop_zero_iter_scan_false` (zero-iteration loop with scan outputs).
+* Against the ONNX reading of empty scan outputs it is FALSE: `c24_loop_zero_iter_scan_false`
+  (zero-iteration loop with scan outputs); against the code's reading (`evalG S false`) it holds.
 * Proved parts (this file): the `Loop` fold is *shared* by both semantics and depends on the body
   runner only pointwise (`c24_loop_congr`), its unrolling law (`c24_loop_unroll`) and zero-iteration
   case (`c24_loop_zero_iterations`); the environment handed to a subgraph resolves every node of
@@ -17,11 +18,11 @@ every fuel, every owned/borrowed split of the arguments):
   reference) or was just moved by value — and every other name to what the parent's own
   environment gives (`c24_child_sees_parent_locals`, `c24_child_sees_outer`,
   `c24_extract_keeps_other_captures`).
-* Global simulation over whole nested runs: proved on a fragment (`c24_runPlan_eq_evalG_partial`:
-  in-place execution included; no re-capture of a graph's own captures by a nested operator; any
-  nesting of If/Loop, any iteration count, any owned/borrowed split).  Outside the fragment it is tied by
-  the correspondence harness and the `decide`d scenario programs below.  The re-capture hole is real
-  at component level: `c24_getInput_misses_capture_node`.
+* Global simulation over whole nested runs: PROVED (`c24_runPlan_eq_evalG`) for all well-formed
+  programs (valid ONNX naming) and operators with at most one in-place input: in-place execution,
+  re-capture of a graph's own captures by a nested operator, any nesting of If/Loop, any iteration
+  count, any owned/borrowed split.  The component-level hole `c24_getInput_misses_capture_node`
+  is shown unreachable inside that proof.
 
 ## T2 (ownership safety) — proved
 `RcInv` holds initially and is preserved by every step of every (nested) `run_plan`
@@ -270,13 +271,12 @@ example :
 
 /-! ### T1 over whole nested runs (fragment) -/
 
-/-- **T1, global refinement (partial: fragment).** For every operator semantics whose operators
+/-- **T1, global refinement.** For every operator semantics whose operators
 declare at most one in-place input (`hS`; all single-output operators of rten do — only the two
 multi-output attention-cache operators declare two), every fuel and every well-formed program `g`
 of nesting depth
 `< fuel` (`wfG`: distinct names per graph, no shadowing of an enclosing graph's names by a subgraph,
-outputs distinct and defined by the graph, and `NoRecapture`: no operator's subgraphs capture a
-name that the graph itself captures), for *every* owned/borrowed split of the arguments, the
+outputs distinct and defined by the graph — what ONNX requires of a valid model), for *every* owned/borrowed split of the arguments, the
 operational semantics — reference counts, in-place candidate selection and the `run_in_place`
 condition, `take_value` from `temp_values` *and* out of the by-value captures inside a subgraph,
 by-value capture extraction, the `CaptureEnv` chain, release of dead values, `Loop` with any number of iterations (zero included), arbitrary nesting of
@@ -285,25 +285,27 @@ class). The naive semantics is taken in its code reading of empty scan outputs (
 it differs from the ONNX reading only on zero-iteration loops with scan outputs
 (`c24_loop_zero_iter_scan_false`).
 The operator contract `run_in_place = run` is part of the model (`Sem.run` is used for both).
-Missing for the full statement: graphs that pass one of their own captures on to a nested operator
-(`NoRecapture` in `wfG`; needs the `ByValOnce` counting argument, see
-`c24_getInput_misses_capture_node`). -/
-theorem c24_runPlan_eq_evalG_partial (S : Sem P V) (hS : ∀ k, (S.inPlaceIdx k).length ≤ 1)
+Graphs that pass one of their own captures on to a nested operator are covered: such a name occurs
+twice in `capture_names`, the parent's count is ≥ 2, so the value is never moved by value into the
+graph's environment and the hole `c24_getInput_misses_capture_node` is unreachable
+(`recapture_count`, `noEnvTake_of_once`, invariant `Inv.byvalonce`). -/
+theorem c24_runPlan_eq_evalG (S : Sem P V) (hS : ∀ k, (S.inPlaceIdx k).length ≤ 1)
     (fuel : Nat)
     (g : Graph P V) (args : List (Bool × V)) (hwf : wfG fuel g = true) :
     runTop S fuel g args = evalG S false fuel [] g (args.map (·.2)) :=
   runPlan_refines S hS fuel g args [] [] hwf
-    (fun _ _ => ⟨rfl, rfl⟩) trivial (fun _ _ _ => rfl)
+    (fun _ _ => ⟨rfl, rfl⟩) trivial (fun _ h => absurd rfl h) (fun _ _ _ => rfl)
 
 /-- The general form: a subgraph run in any capture environment `E` that agrees with the naive
 enclosing environment `σ` on the graph's free names (and does not shadow its names). -/
-theorem c24_runPlan_eq_evalG_env_partial (S : Sem P V) (hS : ∀ k, (S.inPlaceIdx k).length ≤ 1)
+theorem c24_runPlan_eq_evalG_env (S : Sem P V) (hS : ∀ k, (S.inPlaceIdx k).length ≤ 1)
     (fuel : Nat) (g : Graph P V) (args : List (Bool × V)) (E : List (Frame V)) (σ : Env V)
     (hwf : wfG fuel g = true)
     (hshadow : ∀ n, n ∈ g.allDefs → getInput E n = none ∧ look σ n = none) (hhead : headOK E)
+    (honce : ∀ n, look (headByVal E) n ≠ none → g.capNames.count n ≤ 1)
     (hfree : ∀ n, n ∉ g.defs → Needed g g.ops n → getInput E n = look σ n) :
     runPlan S fuel g args E = evalG S false fuel σ g (args.map (·.2)) :=
-  runPlan_refines S hS fuel g args E σ hwf hshadow hhead hfree
+  runPlan_refines S hS fuel g args E σ hwf hshadow hhead honce hfree
 
 theorem intSem_one_inplace : ∀ k, (intSem.inPlaceIdx k).length ≤ 1 := by
   intro k; cases k <;> decide
@@ -315,13 +317,18 @@ example : wfG 3 progS3 = true := by decide
 example :
     runTop intSem 3 progS3 (argsS3.map (fun v => (true, v))) =
       evalG intSem false 3 [] progS3 argsS3 := by
-  have := c24_runPlan_eq_evalG_partial intSem intSem_one_inplace 3 progS3
+  have := c24_runPlan_eq_evalG intSem intSem_one_inplace 3 progS3
     (argsS3.map (fun v => (true, v))) (by decide)
   simpa [List.map_map, Function.comp_def] using this
 
-/-- `progS1` (a branch that uses `5` itself *and* passes it on to its loop) is outside the
-fragment: `NoRecapture` fails. -/
-example : wfG 4 progS1 = false := by decide
+/-- `progS1` (a branch that uses `5` itself *and* passes it on to its loop — capture of a capture)
+is covered too. -/
+example :
+    runTop intSem 4 progS1 ([⟨[2], [1, 2]⟩, ⟨[2], [3, 4]⟩, ⟨[], [1]⟩].map (fun v => (true, v))) =
+      evalG intSem false 4 [] progS1 [⟨[2], [1, 2]⟩, ⟨[2], [3, 4]⟩, ⟨[], [1]⟩] := by
+  have := c24_runPlan_eq_evalG intSem intSem_one_inplace 4 progS1
+    ([⟨[2], [1, 2]⟩, ⟨[2], [3, 4]⟩, ⟨[], [1]⟩].map (fun v => (true, v))) (by decide)
+  simpa [List.map_map, Function.comp_def] using this
 
 /-! ## T2 -/
 
